@@ -1988,7 +1988,7 @@ func ruleMadeThenAppended(c *Ctx, rule string, pkgs ...string) {
 
 // ruleStampAfterSuccess: a page is stamped with an LSN only when the change the LSN belongs to has happened.
 func ruleStampAfterSuccess(c *Ctx, rule string) {
-	c.Rule(rule, "a page is stamped only once its change cannot be refused any more: in the logged mutators of RelationService (Insert goes through BTree.insert, which has its own rule; Update, MarkDeleted, updatePageTable) no path leads from a markDirty(nextLSN) call to an error return of the same function — a stamp placed in front of updateCell survives a refused (oversized) UPDATE, the flusher writes the page with an LSN no record carries, and redo skips the next logged change of that page after a crash")
+	c.Rule(rule, "a page is stamped only once its change cannot be refused any more: in the logged mutators of RelationService (Insert goes through BTree.insert, which has its own rule; Update, MarkDeleted, updatePageTable) after a markDirty(nextLSN) call nothing that can refuse (a repository function returning an error) is called any more in the same function or callback — a stamp placed in front of updateCell survives a refused (oversized) UPDATE, the flusher writes the page with an LSN no record carries, and redo skips the next logged change of that page after a crash")
 	w := c.W
 	n := 0
 	for _, name := range []string{"storage.(*RelationService).Update", "storage.(*RelationService).MarkDeleted", "storage.(*RelationService).updatePageTable"} {
@@ -2005,22 +2005,32 @@ func ruleStampAfterSuccess(c *Ctx, rule string) {
 					continue
 				}
 				start := loc
-				first := true
 				hit, _ := g.Forward(&start, nil, func(nn ast.Node, at Loc) Verdict {
-					if first {
-						first = false
-						return Go
-					}
-					if r, ok := nn.(*ast.ReturnStmt); ok {
-						if len(r.Results) > 0 && !g.ReturnMayBeNil(r) {
-							return Hit
+					// something that can still refuse: a call of a repository function that returns an error
+					refuses := false
+					ast.Inspect(nn, func(z ast.Node) bool {
+						if _, isLit := z.(*ast.FuncLit); isLit {
+							return false
 						}
+						if cl, ok := z.(*ast.CallExpr); ok {
+							if fn := f.Callee(cl); fn != nil && fn.Pkg() != nil && strings.HasPrefix(fn.Pkg().Path(), "github.com/mk6i/mkdb") {
+								if sg, ok := fn.Type().(*types.Signature); ok && sg.Results().Len() > 0 && isErrorType(sg.Results().At(sg.Results().Len()-1).Type()) {
+									refuses = true
+								}
+							}
+						}
+						return true
+					})
+					if refuses {
+						return Hit
+					}
+					if _, ok := nn.(*ast.ReturnStmt); ok {
 						return Cut
 					}
 					return Go
 				}, nil)
 				if hit {
-					c.Fail(rule, key, call.Pos(), "%s can still return an error after it has stamped the page with markDirty: a refused change leaves a page carrying an LSN that is in no log record", f.Name)
+					c.Fail(rule, key, call.Pos(), "%s calls something that can still refuse after it has stamped the page with markDirty: a refused change leaves a page carrying an LSN that is in no log record", f.Name)
 				} else {
 					c.OK(rule, key, call.Pos(), 2, "no error return is reachable after the stamp")
 				}
